@@ -19,7 +19,8 @@ META = {
         "inputs: G1 programs/expressions, corpus statements, xonsh seeds, G4 mutations (invalid), and programs using except*, type parameter "
         "lists and type statements (valid and broken variants), each evaluated in every cell of verbose in {False,True} x py_version in "
         "{None,(3,8)..(3,13)} x mode in {exec,eval} (stdout discarded); plus 8 families of long left-associative chains / statement runs / pipelines "
-        "(300..2500 links) parsed quietly and with verbose under the interpreter's default recursion limit.  Oracles: (1) verbose-inert: the canonical outcome (tree dump with "
+        "(300..2500 links) parsed quietly and with verbose under the interpreter's default recursion limit; gated programs and a sixth of the others are "
+        "also written to a file and parsed with parse_file in every py_version cell (and verbose in two): the outcome equals parse_string's.  Oracles: (1) verbose-inert: the canonical outcome (tree dump with "
         "positions, or exception class/message/position/text) is identical with and without verbose in every cell; (2) gating: need = (3,12) if "
         "the default tree contains TypeAlias or non-empty type_params, (3,11) if it contains TryStar, else none; for an accepted input every "
         "py_version >= need gives the default outcome and every py_version < need gives a SyntaxError whose message names need; for a rejected "
@@ -135,6 +136,43 @@ def check_cells(rec, case):
                 results[(mode, verbose, v)] = run(src, mode, verbose, v)
     rec.case(case, nt, labels=(f"stream:{stream}",) + tuple(f"base-{m}:{results[(m, False, None)].kind}" for m in modes), key=src)
     rec.count("cells", len(results))
+    # the file entry point takes the same options: every py_version cell of parse_file equals the parse_string cell
+    if "exec" in modes and (stream.startswith("gated") or len(src) % 6 == 0) and "\x00" not in src and "\r" not in src:
+        try:
+            data = src.encode("utf-8")
+        except UnicodeEncodeError:
+            data = None
+        if data is not None:
+            import os
+            import tempfile
+
+            from ..common import XonshParser, classify_exception, Outcome, SoftTimeout, watchdog
+
+            fd, path = tempfile.mkstemp(prefix="vf-c15-", suffix=".xsh", dir=os.environ.get("VERIF_WORKER_TMP"))
+            try:
+                with os.fdopen(fd, "wb") as f:
+                    f.write(data)
+                for v in VERSIONS:
+                    for verbose in (False, True):
+                        if verbose and (v not in (None, (3, 8)) or case.get("skip_verbose")):
+                            continue
+                        opts = {"verbose": verbose}
+                        if v is not None:
+                            opts["py_version"] = v
+                        try:
+                            with watchdog(), contextlib.redirect_stdout(Discard()):
+                                fo = Outcome("tree", tree=XonshParser().parse_file(__import__("pathlib").Path(path), **opts))
+                        except SoftTimeout:
+                            continue
+                        except BaseException as e:  # noqa: BLE001
+                            fo = classify_exception(e)
+                        rec.count("file-cells")
+                        so = results[("exec", False, v)]
+                        if fo.canon(filename=False) != so.canon(filename=False):
+                            rec.fail(dict(case, mode="exec"), f"parse_file-ignores-option:{'verbose' if verbose else 'py_version'}:{so.kind}->{fo.kind}", {"py_version": v, "verbose": verbose, "string": [str(x)[:160] for x in so.brief()], "file": [str(x)[:160] for x in fo.brief()]})
+                            return
+            finally:
+                os.unlink(path)
     for mode in modes:
         base = results[(mode, False, None)]
         bc = base.canon()
